@@ -226,7 +226,8 @@ class workq:
         jobs = [self.id2job[jid] for jid in jobids]
         for j in jobs:
             j.finish_event.wait()
-            if j.drop:
+            if j.drop and self.id2job.get(j.jobid) is j:
+                # only forget *this* job: its id may have been re-used after a kill
                 del self.id2job[j.jobid]
         return jobs
 
